@@ -130,7 +130,75 @@ void standard_tree(C19Case* c) {
   add("/sim", "dir", "");
 }
 
+
+// ---- platform fall-back sources (Android tzdata bundle, Fuchsia directories) -------------------------------
+// A bundle is described by its content string, so that a replay file carries it:
+//   bundle|<state>|<name>=<marker>[:<flag>];<name>=<marker>[:<flag>];...
+// state: ok | badmagic | shorthdr | negindex | dataltindex | ragged      (anything but ok: the loader moves on to the next bundle)
+// flag : negstart | neglen (the loader gives up on this bundle at that entry) | lenshort | lenzero (entry found, data cut: load fails)
+//        | lenbeyond (declared length runs past the data: harmless)
+struct BundleEntry { std::string name; int marker = 0; std::string flag; };
+struct Bundle { std::string state; std::vector<BundleEntry> entries; };
+const char* const kAndroidBundles[] = {"/apex/com.android.tzdata/etc/tz/tzdata", "/data/misc/zoneinfo/current/tzdata", "/system/usr/share/zoneinfo/tzdata"};
+const char* const kFuchsiaPrefixes[] = {"/config/data/tzdata/", "/pkg/data/tzdata/", "/data/tzdata/", "/config/tzdata/"};
+
+bool parse_bundle(const std::string& content, Bundle* b) {
+  if (content.compare(0, 7, "bundle|") != 0) return false;
+  size_t bar = content.find('|', 7);
+  if (bar == std::string::npos) return false;
+  b->state = content.substr(7, bar - 7);
+  size_t i = bar + 1;
+  while (i < content.size()) {
+    size_t semi = content.find(';', i);
+    if (semi == std::string::npos) semi = content.size();
+    std::string item = content.substr(i, semi - i);
+    i = semi + 1;
+    size_t eq = item.rfind('=');
+    if (eq == std::string::npos) continue;
+    BundleEntry e;
+    e.name = item.substr(0, eq);
+    std::string rest = item.substr(eq + 1);
+    size_t col = rest.find(':');
+    e.marker = atoi(rest.substr(0, col).c_str());
+    if (col != std::string::npos) e.flag = rest.substr(col + 1);
+    b->entries.push_back(e);
+  }
+  return true;
+}
+
+std::string bundle_bytes(const Bundle& b) {
+  auto be32 = [](std::string* s, int64_t v) { for (int k = 3; k >= 0; --k) s->push_back(static_cast<char>((static_cast<uint64_t>(v) >> (8 * k)) & 0xff)); };
+  std::string index, data;
+  for (const BundleEntry& e : b.entries) {
+    char abbr[16];
+    snprintf(abbr, sizeof abbr, "P%04d", e.marker);
+    std::string z = write_tzif(marker_zone(abbr, e.marker * 60, '2'));
+    std::string nm = e.name.substr(0, 40);
+    nm.resize(40, '\0');
+    int64_t start = static_cast<int64_t>(data.size()), len = static_cast<int64_t>(z.size());
+    if (e.flag == "negstart") start = -100000;
+    if (e.flag == "neglen") len = -1;
+    if (e.flag == "lenshort") len -= 10;
+    if (e.flag == "lenzero") len = 0;
+    if (e.flag == "lenbeyond") len += 100000;
+    index += nm; be32(&index, start); be32(&index, len); be32(&index, 0);
+    data += z;
+  }
+  if (b.state == "ragged") index += std::string(7, 'r');
+  std::string h = std::string("tzdata2024a", 11);
+  h.push_back('\0');
+  int64_t index_offset = 24, data_offset = 24 + static_cast<int64_t>(index.size());
+  if (b.state == "negindex") index_offset = -24;
+  if (b.state == "dataltindex") { index_offset = data_offset + 52; }
+  be32(&h, index_offset); be32(&h, data_offset); be32(&h, data_offset + static_cast<int64_t>(data.size()));
+  std::string out = h + index + data;
+  if (b.state == "badmagic") out[2] = 'X';
+  if (b.state == "shorthdr") out.resize(20);
+  return out;
+}
+
 std::string content_bytes(const FsSpec& f) {
+  { Bundle b; if (parse_bundle(f.content, &b)) return bundle_bytes(b); }
   const std::string& c = f.content;
   char abbr[16];
   snprintf(abbr, sizeof abbr, "P%04d", f.marker);
@@ -213,6 +281,49 @@ C19Case gen_c19(const std::string& part, const std::string& tier, uint64_t seed,
     c.chunk2 = static_cast<int>(r.pick(std::vector<int>{1, 3, 7, 64, 65536}));
     return c;
   }
+  if (part == "platform") {
+    // Worlds in which some names are missing from $TZDIR but present in an Android bundle or a Fuchsia directory.
+    set_env(r.pick(std::vector<size_t>{0, 2, 2, 3, 3}), r.pick(std::vector<size_t>{0, 1, 2, 8}), r.below(5));
+    static const std::vector<std::string> pnames = {"AndroidOnly", "Both", "FuchsiaOnly", "No/Such", "X", "NoPerm", "Dir/Missing", "Second", "ThirdOnly", "Cut",
+                                                    "A234567890123456789012345678901234567890", "A234567890123456789012345678901234567890tail", "file:AndroidOnly", "file:FuchsiaOnly", "/abs/missing", "Dir", "Android", "AndroidOnly/"};
+    static const std::vector<std::string> states = {"ok", "ok", "ok", "ok", "badmagic", "shorthdr", "negindex", "dataltindex", "ragged"};
+    static const std::vector<std::string> flags = {"", "", "", "", "", "negstart", "neglen", "lenshort", "lenzero", "lenbeyond"};
+    int mk = 700;
+    for (const char* bp : kAndroidBundles) {
+      if (!r.chance(0.6)) continue;
+      FsSpec f; f.path = bp;
+      if (r.chance(0.1)) { f.kind = r.chance(0.5) ? "noperm" : "dir"; f.content = ""; c.fs.push_back(f); continue; }
+      std::string spec = "bundle|" + r.pick(states) + "|";
+      int ne = static_cast<int>(r.range(0, 6));
+      for (int i = 0; i < ne; ++i) {
+        std::string nm = r.pick(std::vector<std::string>{"AndroidOnly", "Both", "Second", "ThirdOnly", "Cut", "X", "No/Such", "NoPerm", "Other/Zone", "A234567890123456789012345678901234567890", "A234567890123456789012345678901234567890tail", "Android"});
+        spec += nm + "=" + std::to_string(mk++) + (r.chance(0.3) ? ":" + r.pick(flags) : std::string()) + ";";
+      }
+      f.content = spec;
+      c.fs.push_back(f);
+    }
+    for (const char* pre : kFuchsiaPrefixes) {
+      if (!r.chance(0.35)) continue;
+      for (const std::string& nm : {std::string("FuchsiaOnly"), std::string("Both"), std::string("No/Such"), std::string("X")}) {
+        if (!r.chance(0.5)) continue;
+        FsSpec f; f.path = std::string(pre) + "zoneinfo/tzif2/" + nm;
+        f.content = r.chance(0.85) ? "marker" : r.pick(std::vector<std::string>{"badmagic", "trunc:70", "empty"});
+        f.marker = f.content == "marker" ? mk++ : 0;
+        c.fs.push_back(f);
+      }
+    }
+    int nops = static_cast<int>(r.range(1, 5));
+    for (int i = 0; i < nops; ++i) {
+      C19Op o;
+      if (r.chance(0.85)) { o.op = "load"; o.name = r.pick(pnames); if (r.chance(0.1)) o.name = r.pick(name_opts()); if (o.name == "LONG") o.name = "Dir/" + std::string(300, 'y'); expand_nul_name(&o.name); }
+      else o.op = "local";
+      c.ops.push_back(o);
+    }
+    if (r.chance(0.3)) { c.tz_set = true; c.tz = r.pick(pnames); }
+    c.chunk = static_cast<int>(r.pick(std::vector<int>{1, 7, 24, 52, 64, 4096}));
+    c.chunk2 = static_cast<int>(r.pick(std::vector<int>{1, 3, 51, 53, 512, 65536}));
+    return c;
+  }
   set_env(r.below(6), r.below(19), r.below(5));
   if (r.chance(0.15)) { c.tz_set = true; c.tz = r.chance(0.5) ? ":" + r.pick(name_opts()) : r.pick(name_opts()); }
   if (r.chance(0.1)) { c.lt_set = true; c.lt = r.pick(name_opts()); }
@@ -292,6 +403,33 @@ Expect model_load(const C19Case& c, const std::string& name, const std::map<cons
   const FsSpec* spec = node ? find_spec(c, node, back) : nullptr;
   if (spec && content_valid(*spec) && (spec->kind == "reg" || spec->kind == "fifo")) {
     e.ok = true; e.name = name; e.marker = spec->marker; e.data_unverifiable = spec->marker == 0;
+  }
+  if (node != nullptr || c.part != "platform" || name.find('\0') != std::string::npos) return e;
+  // The file could not be opened: the built-in chain goes on to the Android bundles and then to the Fuchsia
+  // directories (code comments in time_zone_info.cc; not part of the documented interface, modelled for part "platform" only).
+  auto spec_at = [&](const std::string& p) -> const FsSpec* { for (const FsSpec& f : c.fs) if (f.path == p) return &f; return nullptr; };
+  for (const char* bp : kAndroidBundles) {
+    const FsSpec* bs = spec_at(bp);
+    Bundle b;
+    if (!bs || bs->kind != "reg" || !parse_bundle(bs->content, &b) || b.state != "ok") continue;
+    for (const BundleEntry& be : b.entries) {
+      if (be.flag == "negstart" || be.flag == "neglen") break;
+      if (be.name.substr(0, 40) != n) continue;
+      e.path = std::string(bp) + "[" + be.name + "]";
+      if (be.flag != "lenshort" && be.flag != "lenzero") { e.ok = true; e.name = name; e.marker = be.marker; }
+      return e;
+    }
+  }
+  if (!n.empty() && n[0] == '/') return e;   // an absolute name is simply tried once more
+  for (const char* pre : kFuchsiaPrefixes) {
+    std::string fp = std::string(pre) + "zoneinfo/tzif2/" + n;
+    int err2 = 0;
+    const FsNode* fn = fs_resolve(fp, &err2);
+    if (!fn) continue;
+    const FsSpec* fsp = find_spec(c, fn, back);
+    e.path = fp;
+    if (fsp && content_valid(*fsp) && fsp->kind == "reg") { e.ok = true; e.name = name; e.marker = fsp->marker; e.data_unverifiable = fsp->marker == 0; }
+    return e;
   }
   return e;
 }
@@ -391,6 +529,11 @@ Outcome exec_c19(const C19Case& c, bool keep_log, Stats* stats) {
     if (o.op == "load") { e = model_load(c, o.name, back); what = "load_time_zone('" + o.name + "')"; }
     else if (o.op == "local") { e = model_local(c, back); what = "local_time_zone()"; }
     else { e = Expect(); what = "time_zone()"; }
+    if (stats && c.part == "platform" && o.op != "default") {
+      if (e.path.find('[') != std::string::npos) stats->add(e.ok ? "probe.android_entry_expected_to_load" : "probe.android_entry_found_but_cut");
+      else if (e.path.find("/zoneinfo/tzif2/") != std::string::npos) stats->add(e.ok ? "probe.fuchsia_file_expected_to_load" : "probe.fuchsia_file_found_but_invalid");
+      if (e.ok && !e.builtin && e.marker >= 700 && !r.is_utc) stats->add("probe.platform_zone_loaded");
+    }
     ev(what + " -> " + render(r) + " | model: " + (e.ok ? "ok" : "fail") + " name=" + e.name + " marker=" + std::to_string(e.marker) + " path=" + e.path);
     // What a clean failure looks like.
     const bool clean_failure = (o.op == "load" ? !r.ok : true) && r.is_utc && r.name == "UTC";
